@@ -145,6 +145,10 @@ func verifRepairSplits(sp []conf_v1.Split, ups []string, r *verifRng) []conf_v1.
 
 func verifRepairRoutes(routes []conf_v1.Route, ups []string, prefix string, allowRoute bool, r *verifRng) []conf_v1.Route {
 	if len(routes) == 0 {
+		// the CRDs carry no minItems: an empty route list is admissible (one time in three it is kept)
+		if r.below(3) == 0 {
+			return routes
+		}
 		routes = []conf_v1.Route{{}}
 	}
 	for i := range routes {
@@ -370,7 +374,7 @@ func verifRepairTS(ts *conf_v1.TransportServer, r *verifRng) {
 			s.TLS = nil
 		}
 	}
-	if len(s.Upstreams) == 0 {
+	if len(s.Upstreams) == 0 && r.below(3) != 0 {
 		s.Upstreams = []conf_v1.TransportServerUpstream{{}}
 	}
 	for i := range s.Upstreams {
